@@ -333,7 +333,9 @@ ForeignCellWitness(D, ww, c) ==
     LET f == ForeignOf(D, c[1])
         conn == c[4]
         PortOf(n) == f[4][CHOOSE i \in DOMAIN f[4] : f[4][i][1] = n]
-        attrs == SelectSeq(c[5], LAMBDA a : a[1] # "\\src")
+        \* the back end adds a source location attribute of its own - unless the design gave the instance one
+        GivenSrc == \E i \in DOMAIN f[3] : f[3][i][1] = "\\src"
+        attrs == IF GivenSrc THEN c[5] ELSE SelectSeq(c[5], LAMBDA a : a[1] # "\\src")
         BadConn(k) == LET p == PortOf(conn[k][1]) IN
                       \/ SW(ww, conn[k][2]) # p[3]
                       \/ p[4] # <<>> /\ BitsOf(ww, conn[k][2]) # BitsOf(ww, p[4])
